@@ -21,6 +21,7 @@ type Frame struct {
 type RunError struct {
 	Class    string    // error class, one of the Err* constants
 	Operands []string  // operands of the failing operation, Abbrev rendered
+	Op       string    // failing operation: a binary operator, "u"+unary operator, index, slice, assign, call, cond, aton, read
 	Stacks   [][]Frame // per coroutine (failing one first, main last) calls innermost first
 }
 
@@ -96,6 +97,7 @@ type Interp struct {
 	MaxDepth int          // call nesting limit, exceeding it is a "budget" error
 	MaxLive  int          // limit of simultaneously live coroutines, exceeding it is a "budget" error
 	Steps    int64        // total evaluated nodes
+	op       string       // operation about to fail (reported in RunError.Op)
 
 	// coverage counters
 	Yields     int // yields handed to a for loop
@@ -240,7 +242,8 @@ func (in *Interp) GlobalNames() []string {
 
 // fail raises a runtime error in the current coroutine.
 func (in *Interp) fail(class string, operands ...Value) {
-	e := &RunError{Class: class, Operands: make([]string, len(operands))}
+	e := &RunError{Class: class, Operands: make([]string, len(operands)), Op: in.op}
+	in.op = ""
 	for i, o := range operands {
 		e.Operands[i] = Abbrev(o)
 	}
@@ -288,6 +291,7 @@ func (in *Interp) bind(name string, v Value, a *activation) {
 func (in *Interp) cond(n node.Type, a *activation) bool {
 	c, _ := in.eval(n, a)
 	if c.K != KBool {
+		in.op = "cond"
 		in.fail(ErrType, c)
 	}
 	return c.Bool()
@@ -366,6 +370,7 @@ func (in *Interp) binOp(n node.BinOp, a *activation) Value {
 	r, _ := in.eval(n.Right, a) // no short circuit
 	v, cls := binary(n.Op, l, r)
 	if cls != "" {
+		in.op = n.Op
 		in.fail(cls, l, r)
 	}
 	return v
@@ -376,8 +381,10 @@ func (in *Interp) unOp(n node.UnOp, a *activation) Value {
 	v, cls := unary(n.Op, t)
 	if cls != "" {
 		if n.Op == "-" { // -x is -1 * x: the failing operation is the multiplication
+			in.op = "*"
 			in.fail(cls, Int(-1), t)
 		}
+		in.op = "u" + n.Op
 		in.fail(cls, t)
 	}
 	return v
@@ -388,6 +395,7 @@ func (in *Interp) indexAt(n node.IndexAt, a *activation) Value {
 	i, _ := in.eval(n.At, a)
 	v, cls := index(x, i)
 	if cls != "" {
+		in.op = "index"
 		in.fail(cls, x, i)
 	}
 	return v
@@ -399,6 +407,7 @@ func (in *Interp) indexFromTo(n node.IndexFromTo, a *activation) Value {
 	j, _ := in.eval(n.To, a)
 	v, cls := index(x, i, j)
 	if cls != "" {
+		in.op = "slice"
 		in.fail(cls, x, i, j)
 	}
 	return v
@@ -407,6 +416,7 @@ func (in *Interp) indexFromTo(n node.IndexFromTo, a *activation) Value {
 func (in *Interp) assign(n node.Assign, a *activation) Value {
 	v, _ := in.eval(n.Value, a)
 	if v.K == KNil {
+		in.op = "assign"
 		in.fail(ErrNil, v)
 	}
 	in.bind(string(n.VarRef.(node.Name)), v, a)
@@ -458,10 +468,12 @@ func (in *Interp) call(n node.Call, a *activation) Value {
 	name := string(n.Name.(node.Name))
 	callee := in.lookup(name, a) // after the arguments
 	if callee.K != KFunc {
+		in.op = "call"
 		in.fail(ErrType, callee)
 	}
 	f := callee.ref.fn
 	if len(args) != len(f.params) {
+		in.op = "call"
 		in.fail(ErrArity, callee)
 	}
 	co := in.cur
@@ -556,6 +568,7 @@ func (in *Interp) loop(n node.For, a *activation) (Value, bool) {
 				return result, false
 			}
 			if v.K == KNil { // binding a loop variable is an assignment
+				in.op = "assign"
 				in.fail(ErrNil, v)
 			}
 			in.bind(string(n.VarRefs.Elems[k].(node.Name)), v, a)
